@@ -37,10 +37,14 @@ type Request struct {
 // Reply is one echo reply the responder wants delivered to the requesting socket.
 type Reply struct {
 	Delay time.Duration
-	ID    int
-	SeqN  int
-	Data  []byte
-	From  net.IP // nil = the request's destination
+	// Hold keeps the reply back until ReleaseHeld is called for the node whose
+	// socket asked (a reply that arrives at a moment the harness chooses, e.g.
+	// together with the frame that closes the session).
+	Hold bool
+	ID   int
+	SeqN int
+	Data []byte
+	From net.IP // nil = the request's destination
 }
 
 // World is the per-run ICMP layer; it lives in simnet.W().Ext so that it is
@@ -52,6 +56,7 @@ type World struct {
 	ListenErr func(node, network string) error
 	Requests  []Request
 	Open      int // sockets currently open
+	held      []heldReply
 	Created   int
 	nextSock  uint64
 }
@@ -156,13 +161,37 @@ func (c *PacketConn) WriteTo(b []byte, dst net.Addr) (int, error) {
 		if rp.From == nil {
 			rp.From = rq.Dst
 		}
-		if rp.Delay <= 0 {
+		if rp.Hold {
+			c.w.held = append(c.w.held, heldReply{c: c, rp: rp})
+		} else if rp.Delay <= 0 {
 			c.deliver(rp)
 		} else {
 			simrt.AfterFunc(rp.Delay, func() { c.deliver(rp) })
 		}
 	}
 	return len(b), nil
+}
+
+type heldReply struct {
+	c  *PacketConn
+	rp Reply
+}
+
+// ReleaseHeld delivers the replies held back for sockets of node (all of them
+// at this instant) and reports how many there were.
+func (w *World) ReleaseHeld(node string) int {
+	n := 0
+	keep := w.held[:0]
+	for _, h := range w.held {
+		if h.c.node == node {
+			h.c.deliver(h.rp)
+			n++
+		} else {
+			keep = append(keep, h)
+		}
+	}
+	w.held = keep
+	return n
 }
 
 func (c *PacketConn) deliver(rp Reply) {
